@@ -2,6 +2,7 @@
 #include "contracts/prelude.h"
 #include "src/storage.c"
 #include "contracts/spec.h"
+#include "contracts/gf.h"
 #include "contracts/storage.h"
 void harness(void) {
     const uint8_t* st; polyseed_data* d;
